@@ -67,6 +67,9 @@ fn prepare_dir(env: &Env) {
 impl C12 {
     fn one(&self, s: &[u8], out: &mut CaseOut, accepted: &mut u64, sigs: &mut std::collections::BTreeSet<u64>, env: &Env) -> bool {
         out.evals += 1;
+        if let Ok(p) = std::env::var("N2CHECK_DUMP_INPUT") {
+            let _ = std::fs::write(p, s);
+        }
         if env.replaying && !survives(|| {
             let _ = load_bytes(s);
         }) {
@@ -318,8 +321,8 @@ impl Check for C12 {
     fn parts(&self, tier: Tier) -> Vec<Part> {
         vec![
             Part { name: "tokens", kind: PartKind::Enum { units: 26 * 26 } },
-            Part { name: "mutants", kind: PartKind::Random { cases: tier.pick(60_000, 1_000_000), main: 160, ops: 2, oplen: 120, sched: 0 } },
-            Part { name: "targets", kind: PartKind::Random { cases: tier.pick(20_000, 200_000), main: 10, ops: 0, oplen: 0, sched: 0 } },
+            Part { name: "mutants", kind: PartKind::Random { cases: tier.pick(400_000, 4_000_000), main: 160, ops: 2, oplen: 120, sched: 0 } },
+            Part { name: "targets", kind: PartKind::Random { cases: tier.pick(100_000, 1_000_000), main: 10, ops: 0, oplen: 0, sched: 0 } },
         ]
     }
     fn run_unit(&mut self, _part: &str, u: u64, env: &mut Env) -> CaseOut {
